@@ -70,6 +70,8 @@ class Mod:
         self.public: list[str] = []        # top-level public names (candidates for __all__)
         self.leaf: set[str] = set()        # public names nothing else refers to (may be left out of __all__)
         self.final_classes: set[str] = set()   # classes that cannot be subclassed (enums with members, …)
+        self.rebound: set[str] = set()
+        self.force_all = False
         self.features: list[str] = []
         self.n = 0
 
@@ -268,11 +270,11 @@ class Mod:
     def method_block(self, cname: str, indent: str = "    ", abstract: bool = False, no_init: bool = False) -> None:
         r = self.rng
         kinds = r.sample(["plain", "plain", "static", "classm", "prop", "proprw", "dunder", "init", "async", "private",
-                          "nested"], r.randint(1, 5))
+                          "nested", "dunder_ret"], r.randint(1, 5))
         if no_init:
             kinds = [k for k in kinds if k not in ("init", "nested")] or ["plain"]
         if self.profile == "inspect":
-            kinds = [k for k in kinds if k in ("plain", "static", "classm", "init", "private")] or ["plain"]
+            kinds = [k for k in kinds if k in ("plain", "static", "classm", "init", "private", "dunder_ret")] or ["plain"]
         for k in kinds:
             if k == "plain":
                 self.func(self.fresh("meth"), indent, "self",
@@ -318,6 +320,17 @@ class Mod:
                               f"{indent}def __exit__(self, *args: object) -> None:", f"{indent}    pass")
                 elif d == "__contains__":
                     self.emit(f"{indent}def __contains__(self, item: object) -> bool:", f"{indent}    return False")
+            elif k == "dunder_ret":
+                # special methods of infer_method_ret_type's table with a spelled-out, NON-conventional return type
+                d, conv, extra = r.choice([("__lt__", "bool", ", other: object"), ("__le__", "bool", ", other: object"),
+                                           ("__gt__", "bool", ", other: object"), ("__ge__", "bool", ", other: object"),
+                                           ("__floor__", "int", ""), ("__ceil__", "int", ""), ("__trunc__", "int", ""),
+                                           ("__contains__", "bool", ", item: object"), ("__length_hint__", "int", ""),
+                                           ("__setitem__", "None", ", key: int, value: int"), ("__delitem__", "None", ", key: int")])
+                t, _, _ = self.ty()
+                if t == conv:
+                    t = "object"
+                self.emit(f"{indent}def {d}(self{extra}) -> {t}:", f"{indent}    raise NotImplementedError")
             elif k == "init":
                 t, ds, _ = self.ty()
                 t2, ds2, _ = self.ty()
@@ -647,6 +660,45 @@ class Mod:
             self.emit(f"def {n}(x: BaseAlias) -> int:", "    return helper(0)")
         self.public.append(n)
 
+    def f_rebind(self) -> None:
+        """An imported name that is also assigned at module level (optional-dependency fallbacks, wrapped re-binding)."""
+        r = self.rng
+        rb = self.relbase
+        avail = [k for k in ("fallback_from", "fallback_module", "none_after_import", "wrapped", "wrapped_all")
+                 if k not in self.rebound]
+        if not avail:
+            return self.f_functions()
+        k = r.choice(avail)
+        self.rebound.add(k)
+        n = self.fresh("reb")
+        if k == "fallback_from":
+            self.emit("try:", f"    from {rb}base import helper", "except ImportError:",
+                      "    helper = None  # type: ignore[assignment]",
+                      f"def {n}(x: int) -> int:", "    return helper(x) if helper is not None else x")
+        elif k == "fallback_module":
+            self.emit("try:", "    import json", "except ImportError:", "    json = None  # type: ignore[assignment]",
+                      f"def {n}(x: int) -> json.JSONDecoder | None:", "    return None")
+        elif k == "none_after_import":
+            fl = self.fresh("DISABLE")
+            self.emit("import decimal", f"{fl} = False", f"if {fl}:", "    decimal = None  # type: ignore[assignment]",
+                      f"def {n}(x: decimal.Decimal, y: int = 0) -> decimal.Decimal:", "    return x")
+            self.public.append(fl)
+        elif k == "wrapped":
+            w = self.fresh("_wrap")
+            tv = self.fresh("_W")
+            self.emit(f"{tv} = {self.T('TypeVar')}('{tv}')", f"def {w}(f: {tv}) -> {tv}:", "    return f",
+                      f"from {rb}base import helper2", f"helper2 = {w}(helper2)",
+                      f"def {n}(x: int) -> int:", "    return helper2(x)")
+        else:
+            w = self.fresh("_wrap")
+            tv = self.fresh("_W")
+            self.emit(f"{tv} = {self.T('TypeVar')}('{tv}')", f"def {w}(f: {tv}) -> {tv}:", "    return f",
+                      "from os.path import basename", f"basename = {w}(basename)",
+                      f"def {n}(p: str) -> str:", "    return basename(p)")
+            self.public.append("basename")
+            self.force_all = True
+        self.public.append(n)
+
     def f_decorated(self) -> None:
         d = self.fresh("deco")
         f = self.fresh("decorated")
@@ -656,7 +708,7 @@ class Mod:
         self.public += [tv, d, f]
 
     FEATURES = ["functions", "functions", "variables", "class", "class", "generic_func", "dataclass", "enum",
-                "namedtuple", "typeddict", "overload", "pep695", "alias", "conditional", "relative", "decorated"]
+                "namedtuple", "typeddict", "overload", "pep695", "alias", "conditional", "relative", "decorated", "rebind"]
 
     INSPECT_FEATURES = ["functions", "functions", "variables", "class", "class", "relative"]
 
@@ -693,7 +745,7 @@ class Mod:
         r.shuffle(imports)
         allstmt: list[str] = []
         self.all: list[str] | None = None
-        if "dunder_all" not in self.avoid and self.public and r.random() < 0.4:
+        if "dunder_all" not in self.avoid and self.public and (r.random() < 0.4 or self.force_all):
             pub = [p for p in self.public if p not in self.leaf or r.random() < 0.6] or self.public[:1]
             self.all = pub
             allstmt = ["__all__ = " + repr(pub)]
@@ -723,6 +775,10 @@ class Mixin:
 
 def helper(x: int, /, *, scale: float = 1.0) -> int:
     return x
+
+
+def helper2(x: int) -> int:
+    return x
 '''
 
 
@@ -740,6 +796,10 @@ class Mixin:
 
 
 def helper(x: int, *, scale: float = 1.0) -> int:
+    return x
+
+
+def helper2(x: int) -> int:
     return x
 '''
 
